@@ -214,7 +214,8 @@ Proof.
     assert (Hij : i <> j).
     { intros ->. destruct Hj as (Hc & Hd). unfold is_cached in Hc. rewrite El in Hc.
       rewrite Hc in Em. contradiction. }
-    set (st1 := upd_log (upd_stack st (i :: s_stack st)) (i :: s_log st)) in *.
+    set (st1 := upd_reent (upd_log (upd_stack st (i :: s_stack st)) (i :: s_log st))
+                         (s_reent st || mem_item i (s_stack st))) in *.
     assert (I1 : Inv st1) by exact HI.
     assert (Hj1 : held st1 j) by exact Hj.
     destruct (exec_body f st1 (snd i) [] (cl_body cl) (cl_body cl) 0) as [[rb st2] ln] eqn:Eb.
